@@ -100,6 +100,7 @@ def run(ctx):
     cov["distinct_nontrivial"] = s.get("nontrivial_cases", 0)
     cov["exhaustive"] = True
     cov["parsers"] = len(s.get("subjects", {}))
+    cov["families_with_findings"] = s.get("dirty_families", 0)
     cov["valid_encodings"] = s_enc.get("encodings", 0)
     cov["length_classes"] = s_enc.get("length_classes", 0)
     cov["descriptor_classes_generated"] = nlines
